@@ -1,0 +1,40 @@
+//go:build verif
+
+package verification
+
+import "github.com/my-cloud/ruthenium/validatornode/domain/ledger"
+
+// Read-only observation hooks for the verification harness (build tag "verif").
+// They copy internal state out; they never mutate it.
+
+// VerifUtxosById returns, per transaction id, the output slots (nil = consumed).
+func (registry *UtxosRegistry) VerifUtxosById() map[string][]*ledger.Utxo {
+	registry.mutex.RLock()
+	defer registry.mutex.RUnlock()
+	return copyUtxosMap(registry.utxosById)
+}
+
+// VerifUtxosByAddress returns, per address, the spendable outputs in registry order.
+func (registry *UtxosRegistry) VerifUtxosByAddress() map[string][]*ledger.Utxo {
+	registry.mutex.RLock()
+	defer registry.mutex.RUnlock()
+	return copyUtxosMap(registry.utxosByAddress)
+}
+
+// VerifRegistered returns the registered addresses (unordered).
+func (registry *AddressesRegistry) VerifRegistered() []string {
+	registry.registeredMutex.RLock()
+	defer registry.registeredMutex.RUnlock()
+	addresses := make([]string, 0, len(registry.registeredAddresses))
+	for address := range registry.registeredAddresses {
+		addresses = append(addresses, address)
+	}
+	return addresses
+}
+
+// VerifPendingRemovals returns a copy of the pending-removal list, in order.
+func (registry *AddressesRegistry) VerifPendingRemovals() []string {
+	registry.removedMutex.RLock()
+	defer registry.removedMutex.RUnlock()
+	return append([]string(nil), registry.removedAddresses...)
+}
